@@ -97,6 +97,7 @@ class Recorder:
     def __init__(self, tracker):
         self.t = tracker
         self.feat_id = {}      # id(feature array) -> (frame, idx)
+        self.inst_id = {}      # id(PredictedInstance) -> (frame, idx)
         self.keep = []         # keep arrays alive so that ids stay unique
         self.frame = None
         self.nfeat = 0
@@ -125,6 +126,8 @@ class Recorder:
     def _wrap_feature(self, fn):
         def w(inst):
             r = fn(inst)
+            if isinstance(inst, _np.ndarray):   # optical-flow shifted keypoints: registered in update_candidates
+                return r
             self.feat_id[id(r)] = (self.frame, self.nfeat)
             self.keep.append(r)
             pts = inst if isinstance(inst, _np.ndarray) else inst.numpy()
@@ -165,8 +168,40 @@ def make_tracker(cfg):
             self.__dict__["_rec_scores"] = _np.array(r, dtype=float, copy=True)
             return r
 
-    t = RecTracker.from_config(**cfg)
-    return t, Recorder(t)
+    if not cfg.get("use_flow"):
+        t = RecTracker.from_config(**cfg)
+        return t, Recorder(t)
+    # FlowShiftTracker: `from_config` constructs the class itself (not `cls`), so build the real object
+    # through the real `from_config` and copy its fields into a recording subclass.
+    import attrs
+    from sleap_nn.tracking.tracker import FlowShiftTracker
+    t0 = base.from_config(**cfg)
+    if not isinstance(t0, FlowShiftTracker):
+        raise RuntimeError("use_flow=True did not give a FlowShiftTracker")
+    holder = {}
+
+    class RecFlow(FlowShiftTracker):
+        def get_scores(self, *a, **k):
+            r = FlowShiftTracker.get_scores(self, *a, **k)
+            self.__dict__["_rec_scores"] = _np.array(r, dtype=float, copy=True)
+            return r
+
+        def update_candidates(self, *a, **k):
+            d = FlowShiftTracker.update_candidates(self, *a, **k)
+            rec = holder["rec"]
+            # the optical-flow shift is external: identify every shifted feature with the stored
+            # detection (frame, idx) it was computed from
+            for lst in list(d.values()):
+                for x in lst:
+                    rec.feat_id[id(x.feature)] = rec.inst_id.get(id(x.src_predicted_instance))
+                    rec.keep.append(x.feature)
+            return d
+
+    kw = {a.name.lstrip("_"): getattr(t0, a.name) for a in attrs.fields(FlowShiftTracker) if a.init}
+    t = RecFlow(**kw)
+    rec = Recorder(t)
+    holder["rec"] = rec
+    return t, rec
 
 
 def fid(rec, arr):
@@ -203,18 +238,45 @@ def stale_tracks(tracker):
     return [int(t) for t in cand.current_tracks if int(t) not in have]
 
 
+IMG = 128
+
+
+def render_image(case, f):
+    """Synthetic frame for the optical-flow tracker: dim seeded noise + a bright blob at every keypoint
+    of every detection of the frame (deterministic in the case, so replays reproduce)."""
+    import random as _random
+    r = _random.Random(1000 * int(case.get("img_seed", 0)) + f)
+    img = _np.array([[r.randrange(0, 24) for _ in range(IMG)] for _ in range(IMG)], dtype="float64")
+    for det in case["frames"][f]:
+        pts = make_instance(det).numpy()
+        for k, (x, y) in enumerate(pts):
+            if x != x:
+                continue
+            xi, yi = int(round(x)), int(round(y))
+            for dy in range(-3, 4):
+                for dx in range(-3, 4):
+                    yy, xx = yi + dy, xi + dx
+                    if 0 <= yy < IMG and 0 <= xx < IMG:
+                        img[yy, xx] = max(img[yy, xx], 255.0 - 30.0 * (abs(dx) + abs(dy)) - 10 * k)
+    return img.astype("uint8")[:, :, None]
+
+
 def run_impl(case):
     """Run the real tracker over the history.  Returns per-frame records."""
     tracker, rec = make_tracker(case["cfg"])
     frames = []
     for f, dets in enumerate(case["frames"]):
         insts = [make_instance(d) for d in dets]
+        for i, inst in enumerate(insts):
+            rec.inst_id[id(inst)] = (f, i)
+        rec.keep.extend(insts)
         rec.begin(f)
         tracker.__dict__.pop("_rec_scores", None)
+        image = render_image(case, f) if case["cfg"].get("use_flow") else None
         pre_tracks = len(tracker.candidate.current_tracks)
         pre_stale = stale_tracks(tracker)
         pre_queue_empty = not tracker.candidate.tracker_queue
-        res = call(tracker.track, insts, f)
+        res = call(tracker.track, insts, f, image)
         fr = {"n": len(insts), "scores": [float(d[2]) for d in dets], "table": list(rec.table),
               "matrix": tracker.__dict__.get("_rec_scores"), "match": list(rec.match_calls),
               "pre_tracks": pre_tracks, "pre_stale": pre_stale, "pre_queue_empty": pre_queue_empty,
@@ -386,7 +448,11 @@ def compare_frame(case, fr, mo):
         cands = [c.split() for c in mo["cands"].split(";")] if mo["cands"].strip() else []
         flat = [x for c in cands for x in c]
         for i in range(fr["n"]):
-            seq = [f"{b[0]}.{b[1]}" for a, b, _ in fr["table"] if a is not None and a[1] == i]
+            seq = [f"{b[0]}.{b[1]}" if b is not None else "?" for a, b, _ in fr["table"]
+                   if a is not None and a[1] == i]
+            if case["cfg"].get("use_flow"):
+                # the flow tracker groups local-queue candidates by frame: same set, different order
+                seq, flat = sorted(seq), sorted(flat)
             if seq != flat:
                 diffs.append("candidates")
                 break
@@ -427,6 +493,8 @@ def feature_score_lines(case, frames, max_scores=80):
     lines, meta = [], []
     if feat not in ("bboxes", "centroids"):
         return lines, meta
+    if cfg.get("use_flow"):
+        max_scores = 0      # scores are taken against optical-flow shifted features (external), not stored ones
     for f, fr in enumerate(frames):
         for j, (pts, val) in enumerate(fr.get("feats", [])):
             lines.append(" ".join(["bbox" if feat == "bboxes" else "centroid"] + _pts_tokens(pts)))
@@ -584,6 +652,36 @@ def gen_case(rng, cfg=None, max_animals=5, max_frames=12, degenerate=None):
     return {"cfg": cfg, "frames": frames, **({"family": "degenerate_pose"} if poses else {})}
 
 
+def gen_flow_case(rng, cfg=None):
+    """History for the optical-flow tracker (`use_flow=True`, FlowShiftTracker): ≤ 3 animals inside a
+    128×128 synthetic image (bright blobs at the keypoints, see `render_image`), moving ≤ 2 px per frame,
+    presence patterns with absences of `window_size` frames or more, empty frames, permuted order."""
+    cfg = dict(cfg or rng.choice(all_configs()))
+    cfg["use_flow"] = True
+    cfg["window_size"] = rng.choice([1, 2, 3])
+    cfg["instance_score_threshold"] = rng.choice([0.0, 0.0, 0.5])
+    K = rng.choice([1, 2, 2, 3])
+    F = rng.randint(3, 8)
+    base = [(24, 24), (88, 30), (40, 90)]
+    pos = [[base[a][0] + rng.randrange(0, 32) / 16, base[a][1] + rng.randrange(0, 32) / 16] for a in range(K)]
+    gone = {a: (rng.randint(1, F - 1) if rng.random() < 0.45 else F + 1) for a in range(K)}
+    frames = []
+    for f in range(F):
+        dets = []
+        if rng.random() < 0.08:
+            frames.append(dets)
+            continue
+        for a in range(K):
+            pos[a][0] += rng.randrange(-32, 33) / 16
+            pos[a][1] += rng.randrange(-32, 33) / 16
+            absent = gone[a] <= f < gone[a] + cfg["window_size"] + rng.choice([0, 1])
+            if not absent and rng.random() < 0.9:
+                dets.append([pos[a][0], pos[a][1], rng.choice([0.9, 0.9, 0.75, 0.25]), a, 10])
+        rng.shuffle(dets)
+        frames.append(dets)
+    return {"cfg": cfg, "frames": frames, "img_seed": rng.randrange(1000), "family": "flow"}
+
+
 def case_key(case, frames):
     cfg = case["cfg"]
     pres = tuple(tuple(sorted(d[3] for d in dets)) for dets in case["frames"])
@@ -595,6 +693,8 @@ def case_tags(case, frames):
     cfg = case["cfg"]
     tags = [cfg["candidates_method"], cfg["track_matching_method"], cfg["features"],
             "red_" + cfg["scoring_reduction"], f"window_{cfg['window_size']}"]
+    if cfg.get("use_flow"):
+        tags.append("use_flow")
     if any(len(d) == 0 for d in case["frames"]):
         tags.append("has_empty_frame")
     if case.get("family"):
@@ -668,7 +768,7 @@ def shrink(case, pred, budget=60):
     while changed and budget > 0:
         changed = False
         for f in range(len(cur["frames"]) - 1, -1, -1):
-            cand = {"cfg": cur["cfg"], "frames": cur["frames"][:f] + cur["frames"][f + 1:]}
+            cand = dict(cur, frames=cur["frames"][:f] + cur["frames"][f + 1:])
             budget -= 1
             if cand["frames"] and pred(cand):
                 cur, changed = cand, True
@@ -677,7 +777,7 @@ def shrink(case, pred, budget=60):
             continue
         animals = sorted({d[3] for dets in cur["frames"] for d in dets})
         for a in animals:
-            cand = {"cfg": cur["cfg"], "frames": [[d for d in dets if d[3] != a] for dets in cur["frames"]]}
+            cand = dict(cur, frames=[[d for d in dets if d[3] != a] for dets in cur["frames"]])
             budget -= 1
             if pred(cand):
                 cur, changed = cand, True
@@ -734,7 +834,14 @@ def process(chk, cases, fixes, name="tracker step (ids, output, queue state, sco
                         chk.disagree("numpy argsort violates ArgsortSpec: " + e, case, cmc.tolist(), "ArgsortSpec")
                     chk.tag("argsort_validated")
         first = None
+        flow_nan = case["cfg"].get("use_flow") and any(fr.get("nonfinite_score") is not None for fr in frames)
+        if flow_nan:
+            # optical flow lost every keypoint of a stored instance (NaN score): outside the model's total
+            # scores; such a history is judged by the oracle only
+            chk.tag("flow_nan_score_oracle_only")
         for f, fr in enumerate(frames):
+            if flow_nan:
+                break
             d = compare_frame(case, fr, mo[f] if f < len(mo) else None)
             if d:
                 first = (f, d, impl_fields(case, fr), mo[f] if f < len(mo) else None)
@@ -828,6 +935,12 @@ def main(chk):
             cases.append(gen_case(chk.rng, cfg=cfg, max_frames=8, degenerate=True))
     for _ in range(chk.n(500, 6000)):
         cases.append(gen_case(chk.rng))
+    # the optical-flow tracker (second implementation of the same contract): every configuration once
+    # + random; the flow shift is external, its recorded scores are fed to the same model
+    for cfg in cfgs:
+        cases.append(gen_flow_case(chk.rng, cfg=cfg))
+    for _ in range(chk.n(70, 1500)):
+        cases.append(gen_flow_case(chk.rng))
     ndis = process(chk, cases, fixes)
     direct_score_checks(chk)
     if not all(fixes):
@@ -857,5 +970,7 @@ if __name__ == "__main__":
         rule="history = configuration (24 combos × window × threshold) + per-frame ordered presence pattern; "
              "distinct = different configuration or presence/order pattern; trivial = no detection at all",
         assumptions=["max_tracks=None (the by-design 'Exceeding max tracks' exception is not modelled)",
-                     "use_flow=False (FlowShiftTracker shares get_scores/assign_tracks but is not driven)"])
+                     "FlowShiftTracker (use_flow=True) is driven too: cv2.calcOpticalFlowPyrLK is an external parameter, "
+                     "the scores against the flow-shifted features are recorded and fed to the same model; a history "
+                     "in which the flow loses all keypoints of a stored instance (NaN score) is judged by the oracle only"])
     run_check(chk, main)
